@@ -3,6 +3,7 @@ package c18
 
 import (
 	"fmt"
+	"math"
 	"testing"
 	"time"
 
@@ -21,7 +22,7 @@ import (
 )
 
 func TestMain(m *testing.M) {
-	vstat.Rule("Condition expressions from the grammar E := E && E | E || E | (E) | NetworkErrorRatio() op FLOAT | ResponseCodeRatio(a,b,c,d) op FLOAT | LatencyAtQuantileMS(q) op INT (six comparisons, minimal parentheses so precedence matters, nesting <= 3); generated check/fallback/recovery durations; histories of clock advances and responses completing with status from {200,201,404,500,502,503,504} and latency = clock advance while in the gate, overlapping completions around trips, several trip/recovery cycles. Oracle: independent three-valued evaluator over the oracle's own record of responses completed since the last trip (counter window: every cut-off between 9 s and 10 s of age; latency histogram: every suffix containing the last 50 s; quantile rank between floor and ceil of q*n/100; 3%+1.5ms band for latency thresholds, 1e-9 for ratios). At every completion that is definitely an evaluation point (later than the previous evaluation + check period) with a definite value: breaker becomes tripped iff the value is true; where it is definitely not an evaluation point the state must not change; unknown values adopt the observation. on-tripped/on-standby run exactly once per observed transition. Non-trivial: >= 2 atoms of different kinds and >= 1 definite-true and >= 1 definite-false evaluation. A third of the drivers have side effects that hang until the case ends (every transition must still start its effect). TestC18_ConcurrentTransitions: 3-20 cycles; a burst of 2-16 simultaneous failing requests trips the breaker, a burst of simultaneous requests just past the recovery period returns it to standby; the breaker's Logger yields and moves the clock by 1 us while armed; on-tripped and on-standby ran exactly once per cycle. Histories include exchanges lasting 72 min-26 h.")
+	vstat.Rule("Condition expressions from the grammar E := E && E | E || E | (E) | NetworkErrorRatio() op FLOAT | ResponseCodeRatio(a,b,c,d) op FLOAT | LatencyAtQuantileMS(q) op INT (six comparisons, minimal parentheses so precedence matters, nesting <= 3); generated check/fallback/recovery durations; histories of clock advances and responses completing with status from {200,201,404,500,502,503,504} and latency = clock advance while in the gate, overlapping completions around trips, several trip/recovery cycles. Oracle: independent three-valued evaluator over the oracle's own record of responses completed since the last trip (counter window: every cut-off between 9 s and 10 s of age; latency histogram: every suffix containing the last 50 s; quantile rank between floor and ceil of q*n/100; 3%+1.5ms band for latency thresholds, 1e-9 for ratios). At every completion that is definitely an evaluation point (later than the previous evaluation + check period) with a definite value: breaker becomes tripped iff the value is true; where it is definitely not an evaluation point the state must not change; unknown values adopt the observation. on-tripped/on-standby run exactly once per observed transition. Non-trivial: >= 2 atoms of different kinds and >= 1 definite-true and >= 1 definite-false evaluation. A third of the drivers have side effects that hang until the case ends (every transition must still start its effect). TestC18_ConcurrentTransitions: 3-20 cycles; a burst of 2-16 simultaneous failing requests trips the breaker, a burst of simultaneous requests just past the recovery period returns it to standby; the breaker's Logger yields and moves the clock by 1 us while armed; on-tripped and on-standby ran exactly once per cycle. Histories include exchanges lasting 72 min-26 h. TestC18_LatencyEdge: all responses take exactly L from {1.2,1.6,1.9,2.5,3,7.6,49.7,50.2,128.6,250,999.6 ms}, condition LatencyAtQuantileMS(q) op K with K within -1..+2 of floor(L) (optionally or-ed with an error-ratio atom), asserted only when the real value (L..1.01 L) and its whole milliseconds agree on the comparison. Histories of TestC18_Condition may contain a sweep of 60-75 distinct status codes followed by a run of one further code.")
 	vstat.Main(m.Run)
 }
 
@@ -214,7 +215,32 @@ func runCase(t *rapid.T, e node) {
 	}
 	n := rapid.IntRange(3, 70).Draw(t, "nsteps")
 	for i := 0; i < n; i++ {
-		switch rapid.IntRange(0, 13).Draw(t, "op") {
+		switch rapid.IntRange(0, 14).Draw(t, "op") {
+		case 14: // many different status codes in a short time (a scanner, an API with codes of its own), then a run of one more code
+			if rapid.IntRange(0, 2).Draw(t, "sweep") != 0 {
+				start()
+				break
+			}
+			base := rapid.SampledFrom([]int{205, 405, 420}).Draw(t, "sweepBase")
+			for k, kn := 0, rapid.IntRange(60, 75).Draw(t, "sweepCodes"); k < kn; k++ {
+				start()
+				if len(d.InFlight) > 0 {
+					finish(len(d.InFlight)-1, base+k)
+				}
+				if k%16 == 15 {
+					adv(1)
+				}
+			}
+			late := rapid.SampledFrom([]int{521, 522, 598, 299, 451, 503}).Draw(t, "lateCode")
+			for k := rapid.IntRange(3, 90).Draw(t, "lateRun"); k > 0; k-- {
+				start()
+				if len(d.InFlight) > 0 {
+					finish(len(d.InFlight)-1, late)
+				}
+				if k%8 == 0 {
+					adv(ms(P) + 1)
+				}
+			}
 		case 0, 1, 2:
 			start()
 		case 3, 4, 5:
@@ -474,5 +500,75 @@ func TestC18_ConcurrentTransitions(t *testing.T) {
 			clock.Advance(11*time.Second + time.Microsecond) // the failures of this cycle leave the window
 		}
 		vstat.Case(fmt.Sprintf("conctrans|%v|%v|%d|%d", F, R, G, cycles), true, []string{"simultaneous-requests-at-transitions"}, map[string]any{"fallback": F.String(), "recovery": R.String(), "burst": G, "cycles": cycles})
+	})
+}
+
+// TestC18_LatencyEdge: latency conditions right at the threshold. Every response takes exactly
+// L (frozen clock), so every quantile of the window is L up to the histogram's resolution (1%);
+// the condition compares it, in milliseconds, with an integer K next to L. Readings of "the
+// quantile in milliseconds" that the statement admits: the real value and its whole milliseconds
+// (what the code does). Where they all agree the breaker must trip, or must not.
+func TestC18_LatencyEdge(t *testing.T) {
+	rapid.Check(t, func(t *rapid.T) {
+		L := rapid.SampledFrom([]time.Duration{1600 * time.Microsecond, 1900 * time.Microsecond, 2500 * time.Microsecond, 7600 * time.Microsecond, 1200 * time.Microsecond,
+			49700 * time.Microsecond, 50200 * time.Microsecond, 128600 * time.Microsecond, 999600 * time.Microsecond, 3 * time.Millisecond, 250 * time.Millisecond}).Draw(t, "latency")
+		lms := float64(L) / float64(time.Millisecond)
+		K := int(math.Floor(lms)) + rapid.IntRange(-1, 2).Draw(t, "thresholdOffset")
+		if K < 0 {
+			K = 0
+		}
+		op := rapid.SampledFrom(ops).Draw(t, "cmp")
+		q := rapid.SampledFrom([]string{"50.0", "90.0", "99.0", "100.0"}).Draw(t, "quantile")
+		expr := fmt.Sprintf("LatencyAtQuantileMS(%s) %s %d", q, op, K)
+		if rapid.Bool().Draw(t, "withSecondAtom") {
+			expr += " || NetworkErrorRatio() > 0.5"
+		}
+		d := cbh.New(t, expr, time.Second, time.Second, time.Millisecond, time.Duration(rapid.Int64Range(0, int64(time.Second)-1).Draw(t, "phase")))
+		defer d.Close()
+		cmp := func(v float64) bool {
+			k := float64(K)
+			switch op {
+			case "<":
+				return v < k
+			case "<=":
+				return v <= k
+			case ">":
+				return v > k
+			case ">=":
+				return v >= k
+			case "==":
+				return v == k
+			}
+			return v != k
+		}
+		cands := []float64{lms, lms * 1.01, math.Floor(lms), math.Floor(lms * 1.01)}
+		want, unanimous := cmp(cands[0]), true
+		for _, c := range cands[1:] {
+			if cmp(c) != want {
+				unanimous = false
+			}
+		}
+		n := rapid.IntRange(4, 12).Draw(t, "responses")
+		tripped := false
+		for i := 0; i < n && !tripped; i++ {
+			if !d.Start() {
+				t.Fatalf("INFRA: request %d not passed in standby\n%s", i+1, d.History())
+			}
+			d.Advance(L)
+			d.Finish(len(d.InFlight)-1, 200)
+			tripped = d.State() == "tripped"
+			if tripped && unanimous && !want {
+				t.Fatalf("every response took exactly %v; %q is false for the quantile in milliseconds (real value %.3f..%.3f, whole milliseconds %d) but the breaker tripped after response %d\n%s", L, expr, lms, lms*1.01, int(lms), i+1, d.History())
+			}
+			d.Advance(cbh.Step(3))
+		}
+		if unanimous && want && !tripped {
+			t.Fatalf("%d responses, each exactly %v, more than a check period apart; %q is true for the quantile in milliseconds (real value %.3f..%.3f, whole milliseconds %d) but the breaker did not trip\n%s", n, L, expr, lms, lms*1.01, int(lms), d.History())
+		}
+		cl := []string{"latency-at-threshold"}
+		if !unanimous {
+			cl = append(cl, "readings-disagree(not-asserted)")
+		}
+		vstat.Case(fmt.Sprintf("edge|%v|%s|%d", L, expr, n), unanimous, cl, map[string]any{"latency": L.String(), "condition": expr, "expected": want, "asserted": unanimous, "responses": n})
 	})
 }
